@@ -16,7 +16,8 @@ EXPLANATION = (
     "R4 Generator::add_module clears every handle table (shared with C03.R1); R5 no iteration over hash containers in "
     "the expander (order of spliced declarations is deterministic); R6 get_key_offset tries the exact path first and "
     "then the path relative to the includer's parent. Behavioural equivalence of split programs is not decided."
-    " ADDED LATER: R7 struct types of different modules must not share a name in the LLVM context (known finding); R8 an exported constant's initialiser is copied verbatim before names are resolved (known finding); the linkage table of C03.R2 is shared (private functions and all constants are module-private symbols, so equally named private items of two modules are never merged by the linker).")
+    " ADDED LATER: R7 struct types of different modules must not share a name in the LLVM context (known finding); R8 an exported constant's initialiser is copied verbatim before names are resolved (known finding); the linkage table of C03.R2 is shared (private functions and all constants are module-private symbols, so equally named private items of two modules are never merged by the linker)."
+    " ROUNDS 5-6: R2-ALL-IMPORTS-RESOLVED: the resolving loop ranges over every import (sort + partition_point or a filter); the linkage table of C03.R2 is shared.")
 
 DECL = "alpha::common::Declaration"
 
